@@ -1,7 +1,492 @@
-//! C10 — not implemented yet.
+//! C10 — hit order follows the sort spec, scores follow BM25 combined through the query tree.
+//! Engine: inputmc score. Two exhaustive sweeps:
+//!  (A) score sweep: C09 worlds x C09 scored trees x score-bearing sort plans x {bm25, wand}: every
+//!      returned hit's score is recomputed independently (BM25 as pinned in query/bm25.rs with the
+//!      segment's statistics, combined through the tree) and the order is checked;
+//!  (B) sort sweep: worlds whose documents carry every combination of present / missing / multi-valued
+//!      keyword, i64 and f64 sort values x every sequence of 1-3 sort keys over
+//!      {_score, kw, n, f} x {asc, desc, default}: order of the returned hits, and the limited
+//!      response must be the prefix of the unlimited one.
+
+use std::cmp::Ordering as O;
+use std::collections::BTreeSet;
+use std::sync::atomic::{AtomicBool, AtomicU64, Ordering};
+
+use parking_lot::Mutex;
+use serde_json::{json, Value};
+
+use searchlite_core::api::IndexReader;
+use vcore::ev::Reporter;
+use vcore::inp::*;
+use vcore::world::*;
+
+use crate::c09::{self, FailLog, Sc, WorldInfo};
 use crate::Ctx;
 
-pub fn run(_ctx: &Ctx) -> i32 {
-  eprintln!("C10: check not implemented");
-  2
+const SCORE_TOL: f64 = 1e-4;
+
+// ---------------------------------------------------------------------------------------------
+// Sort oracle
+
+#[derive(Debug, Clone, PartialEq)]
+enum SV {
+  Score(f32),
+  Str(String),
+  I(i64),
+  F(f64),
+  Missing,
+}
+
+fn is_desc(key: &Value) -> bool {
+  match key.get("order").and_then(|o| o.as_str()) {
+    Some("desc") => true,
+    Some("asc") => false,
+    _ => key["field"].as_str() == Some("_score"), // default: ascending, descending for _score
+  }
+}
+
+fn values_of(v: &Value) -> Vec<Value> {
+  match v {
+    Value::Null => vec![],
+    Value::Array(a) => a.clone(),
+    x => vec![x.clone()],
+  }
+}
+
+/// Multi-valued: minimum for ascending, maximum for descending; absent: Missing.
+fn sort_value(doc: &Value, field: &str, desc: bool, score: f32) -> SV {
+  if field == "_score" {
+    return SV::Score(score);
+  }
+  let vals = values_of(&doc[field]);
+  if vals.is_empty() {
+    return SV::Missing;
+  }
+  match field {
+    "kw" => {
+      let mut s: Vec<String> = vals.iter().filter_map(|x| x.as_str().map(|s| s.to_string())).collect();
+      s.sort();
+      SV::Str(if desc { s.last().unwrap().clone() } else { s[0].clone() })
+    }
+    "n" | "pop" => {
+      let mut s: Vec<i64> = vals.iter().filter_map(|x| x.as_i64()).collect();
+      s.sort();
+      SV::I(if desc { *s.last().unwrap() } else { s[0] })
+    }
+    _ => {
+      let mut s: Vec<f64> = vals.iter().filter_map(|x| x.as_f64()).collect();
+      s.sort_by(|a, b| a.total_cmp(b));
+      SV::F(if desc { *s.last().unwrap() } else { s[0] })
+    }
+  }
+}
+
+fn cmp_part(a: &SV, b: &SV, desc: bool) -> O {
+  let nat = match (a, b) {
+    (SV::Missing, SV::Missing) => return O::Equal,
+    (SV::Missing, _) => return O::Greater, // missing last in both directions
+    (_, SV::Missing) => return O::Less,
+    (SV::Score(x), SV::Score(y)) => x.total_cmp(y),
+    (SV::Str(x), SV::Str(y)) => x.cmp(y),
+    (SV::I(x), SV::I(y)) => x.cmp(y),
+    (SV::F(x), SV::F(y)) => x.total_cmp(y),
+    _ => O::Equal,
+  };
+  if desc {
+    nat.reverse()
+  } else {
+    nat
+  }
+}
+
+struct Located<'a> {
+  id: &'a str,
+  score: f32,
+  seg: usize,
+  ord: usize,
+  doc: &'a Value,
+}
+
+fn effective_plan(sort: &Value) -> Vec<Value> {
+  let a = sort.as_array().cloned().unwrap_or_default();
+  if a.is_empty() {
+    vec![json!({"field": "_score"})]
+  } else {
+    a
+  }
+}
+
+fn cmp_hits(a: &Located, b: &Located, plan: &[Value]) -> O {
+  for k in plan {
+    let f = k["field"].as_str().unwrap_or("");
+    let d = is_desc(k);
+    let o = cmp_part(&sort_value(a.doc, f, d, a.score), &sort_value(b.doc, f, d, b.score), d);
+    if o != O::Equal {
+      return o;
+    }
+  }
+  (a.seg, a.ord).cmp(&(b.seg, b.ord))
+}
+
+/// Order obligation on the returned hits: strictly increasing under the plan + (segment, ordinal).
+fn check_order(info: &WorldInfo, hits: &[(String, f32)], sort: &Value) -> Result<(), String> {
+  let plan = effective_plan(sort);
+  let mut loc: Vec<Located> = Vec::new();
+  for (id, score) in hits {
+    let Some((seg, ord)) = info.locate(id) else { return Err(format!("unknown document {id} returned")) };
+    loc.push(Located { id, score: *score, seg, ord, doc: &info.segs[seg].docs[ord].json });
+  }
+  for w in loc.windows(2) {
+    if cmp_hits(&w[0], &w[1], &plan) != O::Less {
+      let show = |l: &Located| {
+        let vals: Vec<String> = plan
+          .iter()
+          .map(|k| {
+            let f = k["field"].as_str().unwrap_or("");
+            format!("{:?}", sort_value(l.doc, f, is_desc(k), l.score))
+          })
+          .collect();
+        format!("{}{{values [{}], segment {}, ordinal {}}}", l.id, vals.join(", "), l.seg, l.ord)
+      };
+      return Err(format!("{} is returned before {} although it sorts after it", show(&w[0]), show(&w[1])));
+    }
+  }
+  Ok(())
+}
+
+// ---------------------------------------------------------------------------------------------
+// Score obligation
+
+enum ScoreJudgement {
+  Ok { judged: usize, skipped: usize, multi_reading: usize },
+  Bad(String),
+}
+
+fn check_scores(info: &WorldInfo, hits: &[(String, f32)], q: &Value) -> ScoreJudgement {
+  let (mut judged, mut skipped, mut multi) = (0, 0, 0);
+  for (id, score) in hits {
+    let Some((seg, ord)) = info.locate(id) else { return ScoreJudgement::Bad(format!("unknown document {id} returned")) };
+    match c09::oracle_score(info, seg, ord, q, 1.0) {
+      Sc::Adm(vals) => {
+        judged += 1;
+        if vals.len() > 1 {
+          multi += 1;
+        }
+        let s = *score as f64;
+        let ok = vals.iter().any(|v| (v - s).abs() <= SCORE_TOL * v.abs().max(s.abs()).max(1e-6));
+        if !ok {
+          return ScoreJudgement::Bad(format!(
+            "document {id} (segment {seg}: N={}, avgdl={:.4}, len={}, tf={:?}, df={:?}) has score {score}, expected {}",
+            info.segs[seg].n,
+            info.segs[seg].avgdl,
+            info.segs[seg].docs[ord].len,
+            info.segs[seg].docs[ord].tf,
+            info.segs[seg].df,
+            vals.iter().map(|v| format!("{v:.6}")).collect::<Vec<_>>().join(" or ")
+          ));
+        }
+      }
+      // returned although the oracle's matcher says no match: matching is C07's property
+      Sc::NoMatch | Sc::NonScoring | Sc::Unknown => skipped += 1,
+    }
+  }
+  ScoreJudgement::Ok { judged, skipped, multi_reading: multi }
+}
+
+// ---------------------------------------------------------------------------------------------
+// Alphabets
+
+fn score_sorts() -> Vec<Value> {
+  vec![json!([]), json!([{"field": "_score", "order": "asc"}]), json!([{"field": "pop", "order": "desc"}, {"field": "_score"}])]
+}
+
+/// Sort-value shapes: present / missing / multi-valued, built to tie (v0 ties v3 ascending, v4 ties
+/// v3 descending, v5 is partially missing).
+fn sort_shapes() -> Vec<Value> {
+  vec![
+    json!({"kw": "x", "n": 1, "f": 0.5}),
+    json!({"kw": "y", "n": 2, "f": 1.5}),
+    json!({}),
+    json!({"kw": ["x", "z"], "n": [1, 3], "f": [0.5, 2.5]}),
+    json!({"kw": "z", "n": 3, "f": 2.5}),
+    json!({"kw": "y", "f": -1.5}),
+  ]
+}
+
+const SORT_BODIES: [[&str; 4]; 2] = [["a", "a a b", "b", "a b"], ["a b", "a", "a", "b c"]];
+
+fn sort_world(shape_idx: &[usize], body_variant: usize, layout: &[usize]) -> World {
+  let sh = sort_shapes();
+  let docs: Vec<Value> = shape_idx
+    .iter()
+    .enumerate()
+    .map(|(i, s)| {
+      let mut d = sh[*s].clone();
+      d["_id"] = json!(id_of(i));
+      d["body"] = json!(SORT_BODIES[body_variant][i % 4]);
+      d
+    })
+    .collect();
+  World::new("body+kw+pop+n+f", c09::schema_json(), docs).with_layout(layout.to_vec())
+}
+
+fn sort_keys() -> Vec<Value> {
+  let mut out = Vec::new();
+  for f in ["_score", "kw", "n", "f"] {
+    out.push(json!({"field": f, "order": "asc"}));
+    out.push(json!({"field": f, "order": "desc"}));
+    out.push(json!({"field": f}));
+  }
+  out
+}
+
+/// Every sequence of 1..=max_len keys; `distinct_fields_from` = length from which plans repeating a
+/// field are dropped (quick-tier reduction).
+fn sort_plans(max_len: usize, distinct_fields_from: usize) -> Vec<Value> {
+  let keys = sort_keys();
+  sequences(&keys, 1, max_len)
+    .into_iter()
+    .filter(|p| {
+      if p.len() < distinct_fields_from {
+        return true;
+      }
+      let fs: BTreeSet<&str> = p.iter().map(|k| k["field"].as_str().unwrap()).collect();
+      fs.len() == p.len()
+    })
+    .map(Value::Array)
+    .collect()
+}
+
+fn sort_queries() -> Vec<Value> {
+  vec![json!("a"), json!({"type": "match_all"}), json!("a b")]
+}
+
+/// Trees in which one term key feeds two scoring leaves (H9). In assertion builds search_segment
+/// panics on them (C16's concern); they are only judged here when a response comes back.
+fn dup_term_trees() -> Vec<Value> {
+  vec![
+    json!({"type": "dis_max", "tie_breaker": 0.4, "queries": [{"type": "term", "field": "body", "value": "a"}, {"type": "query_string", "query": "a b"}]}),
+    json!({"type": "bool", "should": [{"type": "term", "field": "body", "value": "a"}, {"type": "term", "field": "body", "value": "a", "boost": 2.0}]}),
+  ]
+}
+
+// ---------------------------------------------------------------------------------------------
+
+fn ranked(reader: &IndexReader, r: Value) -> Result<Vec<(String, f32)>, String> {
+  search_caught(reader, &req(r)).map(|res| id_scores(&res))
+}
+
+fn case_json(engine: &str, world: &World, q: &Value, sort: &Value, exec: &str, limit: usize) -> Value {
+  json!({"engine": engine, "world": world.to_json(), "query": q, "sort": sort, "execution": exec, "limit": limit})
+}
+
+/// One case of either sweep. Returns Err((signature, what)).
+fn check_case(reader: &IndexReader, info: &WorldInfo, q: &Value, sort: &Value, exec: &str, limit: usize, judge_scores: bool) -> Result<(usize, usize, usize, usize), (Option<&'static str>, String)> {
+  let hits = ranked(reader, json!({"query": q, "sort": sort, "execution": exec, "limit": limit})).map_err(|e| (None, format!("search failed: {e}")))?;
+  let uses_score = effective_plan(sort).iter().any(|k| k["field"].as_str() == Some("_score"));
+  let (mut judged, mut skipped, mut multi) = (0, 0, 0);
+  if judge_scores && uses_score {
+    match check_scores(info, &hits, q) {
+      ScoreJudgement::Bad(w) => return Err((None, format!("hits {:?}: {}", hits, w))),
+      ScoreJudgement::Ok { judged: j, skipped: s, multi_reading: m } => {
+        judged = j;
+        skipped = s;
+        multi = m;
+      }
+    }
+  }
+  check_order(info, &hits, sort).map_err(|w| (None, format!("hits {:?}: {}", hits, w)))?;
+  if limit < 100 {
+    let full = ranked(reader, json!({"query": q, "sort": sort, "execution": exec, "limit": 100})).map_err(|e| (None, format!("search failed: {e}")))?;
+    let want: Vec<&String> = full.iter().take(limit).map(|h| &h.0).collect();
+    let got: Vec<&String> = hits.iter().map(|h| &h.0).collect();
+    if want != got {
+      return Err((None, format!("limit {limit} returned {:?} but the first {limit} hits of the unlimited response are {:?}", got, want)));
+    }
+  }
+  Ok((hits.len(), judged, skipped, multi))
+}
+
+pub fn run(ctx: &Ctx) -> i32 {
+  let mut rep = Reporter::new("C10", ctx.tier, "exploration");
+  let quick = ctx.tier.is_quick();
+  if let Some(path) = &ctx.replay {
+    rep.set_replaying(true);
+    let v: Value = serde_json::from_slice(&std::fs::read(path).expect("replay file")).expect("json");
+    let cs = &v["case"];
+    let world = World::from_json(&cs["world"]);
+    let exec = cs["execution"].as_str().unwrap_or("bm25").to_string();
+    let limit = cs["limit"].as_u64().unwrap_or(100) as usize;
+    let judge = cs["engine"].as_str() != Some("inputmc-score/sort");
+    let run1 = || {
+      let idx = world.build();
+      let reader = idx.reader().expect("reader");
+      let info = WorldInfo::new(&world);
+      check_case(&reader, &info, &cs["query"], &cs["sort"], &exec, limit, judge).err().map(|e| e.1)
+    };
+    let (a, b) = (run1(), run1());
+    if a.is_some() != b.is_some() {
+      vcore::ev::machinery_failure("NONDETERMINISM on replay");
+    }
+    return match a {
+      Some(w) => {
+        println!("VIOLATION property=C10 replay={path}\n  what: {w}");
+        1
+      }
+      None => {
+        println!("replay: no violation");
+        0
+      }
+    };
+  }
+
+  let log = FailLog::new();
+  let evals = AtomicU64::new(0);
+  let nontrivial = AtomicU64::new(0);
+  let judged_scores = AtomicU64::new(0);
+  let skipped_scores = AtomicU64::new(0);
+  let multi_reading = AtomicU64::new(0);
+  let h9_panics = AtomicU64::new(0);
+  let h9_answers = AtomicU64::new(0);
+  let timed_out = AtomicBool::new(false);
+  let outcomes: Mutex<BTreeSet<String>> = Mutex::new(BTreeSet::new());
+
+  // ---- (A) score sweep
+  let ws_a = if quick { c09::worlds(3, &[], false) } else { c09::worlds(4, &[5, 6], false) };
+  let trees = c09::scored_trees();
+  let dups = dup_term_trees();
+  let sorts_a = score_sorts();
+  let deadline_a = c09::budget(if quick { 15.0 } else { 420.0 });
+  let (done_a, capped_a) = c09::par_sweep(&ws_a, &rep, deadline_a, |wi, world| {
+    let idx = world.build();
+    let reader = idx.reader().expect("reader");
+    let info = WorldInfo::new(world);
+    let mut local: BTreeSet<String> = BTreeSet::new();
+    for (qi, q) in trees.iter().enumerate() {
+      for (si, sort) in sorts_a.iter().enumerate() {
+        for (ei, exec) in ["bm25", "wand"].iter().enumerate() {
+          evals.fetch_add(1, Ordering::Relaxed);
+          match check_case(&reader, &info, q, sort, exec, 100, true) {
+            Ok((n, j, s, m)) => {
+              judged_scores.fetch_add(j as u64, Ordering::Relaxed);
+              skipped_scores.fetch_add(s as u64, Ordering::Relaxed);
+              multi_reading.fetch_add(m as u64, Ordering::Relaxed);
+              if n >= 2 && j >= 1 {
+                nontrivial.fetch_add(1, Ordering::Relaxed);
+                if !rep.sample_full() && qi % 13 == 5 {
+                  rep.sample(json!({"sweep": "score", "world": world.describe(), "query": q, "sort": sort, "execution": exec, "hits": n, "scores_judged": j}));
+                }
+              }
+              local.insert(format!("score-sweep: hits{} judged{}", n.min(3), if j == n { "all" } else if j == 0 { "none" } else { "some" }));
+            }
+            Err((sig, what)) => {
+              local.insert(format!("score-sweep: violation[{}]", sig.unwrap_or("-")));
+              log.add(sig, vec![0, wi as u64, qi as u64, si as u64, ei as u64], || format!("{} q={} sort={} exec={}: {}", world.describe(), q, sort, exec, what), || case_json("inputmc-score/score", world, q, sort, exec, 100));
+            }
+          }
+        }
+      }
+    }
+    // H9: one term key in two scoring leaves
+    for (qi, q) in dups.iter().enumerate() {
+      match ranked(&reader, json!({"query": q, "execution": "bm25", "limit": 100})) {
+        Err(e) if e.starts_with("PANIC") => {
+          h9_panics.fetch_add(1, Ordering::Relaxed);
+          local.insert("duplicate-term-key: panic (C16)".into());
+        }
+        Err(_) => {}
+        Ok(hits) => {
+          h9_answers.fetch_add(1, Ordering::Relaxed);
+          evals.fetch_add(1, Ordering::Relaxed);
+          if let ScoreJudgement::Bad(w) = check_scores(&info, &hits, q) {
+            log.add(Some("C10-duplicate-term-key-weight-lands-in-first-leaf"), vec![0, wi as u64, 1000 + qi as u64], || format!("{} q={}: {}", world.describe(), q, w), || case_json("inputmc-score/score", world, q, &json!([]), "bm25", 100));
+          }
+        }
+      }
+    }
+    outcomes.lock().extend(local);
+  });
+
+  // ---- (B) sort sweep
+  let nshape = sort_shapes().len();
+  let sidx: Vec<usize> = (0..nshape).collect();
+  let mut ws_b: Vec<World> = Vec::new();
+  for s in sequences(&sidx, 2, if quick { 3 } else { 4 }) {
+    for bv in 0..(if quick { 1 } else { 2 }) {
+      for lay in c09::layouts_1_2(s.len()) {
+        ws_b.push(sort_world(&s, bv, &lay));
+      }
+    }
+  }
+  let plans = if quick { sort_plans(2, 2) } else { sort_plans(3, 99) };
+  let plans3_quick = if quick { sort_plans(3, 3).into_iter().filter(|p| p.as_array().unwrap().len() == 3).collect::<Vec<_>>() } else { vec![] };
+  let qs_b = sort_queries();
+  let deadline_b = c09::budget(if quick { 30.0 } else { 850.0 });
+  let (done_b, capped_b) = c09::par_sweep(&ws_b, &rep, deadline_b, |wi, world| {
+    let idx = world.build();
+    let reader = idx.reader().expect("reader");
+    let info = WorldInfo::new(world);
+    let mut local: BTreeSet<String> = BTreeSet::new();
+    for (qi, q) in qs_b.iter().enumerate() {
+      // quick: the 3-key plans (distinct fields) only for the first query
+      let extra: &[Value] = if qi == 0 { &plans3_quick } else { &[] };
+      for (pi, plan) in plans.iter().chain(extra.iter()).enumerate() {
+        for (li, limit) in [100usize, 2].iter().enumerate() {
+          if *limit == 2 && world.docs.len() < 3 {
+            continue;
+          }
+          evals.fetch_add(1, Ordering::Relaxed);
+          match check_case(&reader, &info, q, plan, "bm25", *limit, false) {
+            Ok((n, ..)) => {
+              if n >= 2 {
+                nontrivial.fetch_add(1, Ordering::Relaxed);
+                if !rep.sample_full() && pi % 97 == 41 {
+                  rep.sample(json!({"sweep": "sort", "world": world.describe(), "query": q, "sort": plan, "limit": limit, "hits": n}));
+                }
+              }
+              local.insert(format!("sort-sweep: hits{}", n.min(3)));
+            }
+            Err((sig, what)) => {
+              local.insert(format!("sort-sweep: violation[{}]", sig.unwrap_or("-")));
+              log.add(sig, vec![1, wi as u64, qi as u64, pi as u64, li as u64], || format!("{} q={} sort={} limit={}: {}", world.describe(), q, plan, limit, what), || case_json("inputmc-score/sort", world, q, plan, "bm25", *limit));
+            }
+          }
+        }
+      }
+    }
+    outcomes.lock().extend(local);
+  });
+
+  timed_out.store(capped_a || capped_b, Ordering::Relaxed);
+  log.flush(&rep);
+  rep.add_evals(evals.load(Ordering::Relaxed));
+  let to = timed_out.load(Ordering::Relaxed);
+  let outs = outcomes.lock().clone();
+  if outs.len() < 2 || judged_scores.load(Ordering::Relaxed) == 0 {
+    vcore::ev::machinery_failure("C10: vacuous (fewer than two outcomes or no score judged)");
+  }
+  let cov = vcore::cov! {
+    "distinct_nontrivial" => nontrivial.load(Ordering::Relaxed),
+    "rule" => "score sweep: a (world, tree, sort plan, execution) case is non-trivial when at least 2 hits come back and at least one score was recomputed; sort sweep: a (world, query, sort plan, limit) case is non-trivial when at least 2 hits come back (so the comparator is exercised)",
+    "score_sweep" => json!({"worlds": ws_a.len(), "worlds_completed": done_a, "trees": trees.len(), "sort_plans": sorts_a, "executions": ["bm25", "wand"], "hit_scores_recomputed": judged_scores.load(Ordering::Relaxed), "hit_scores_not_judged_docs_silent": skipped_scores.load(Ordering::Relaxed), "hit_scores_with_two_admissible_readings": multi_reading.load(Ordering::Relaxed)}),
+    "sort_sweep" => json!({"worlds": ws_b.len(), "worlds_completed": done_b, "world_space": format!("every sequence of {} of {} sort-value shapes x {} body assignment(s) x every 1-2 segment layout", if quick { "2..3" } else { "2..4" }, nshape, if quick { 1 } else { 2 }), "sort_plans": plans.len() + plans3_quick.len(), "plan_space": if quick { "all sequences of 1-2 keys over {_score,kw,n,f} x {asc,desc,default}; 3-key plans with pairwise distinct fields for the first query only" } else { "all sequences of 1-3 keys over {_score,kw,n,f} x {asc,desc,default}" }, "queries": qs_b, "limits": [100, 2]}),
+    "duplicate_term_key_trees" => json!({"panicked_debug_assert": h9_panics.load(Ordering::Relaxed), "answered": h9_answers.load(Ordering::Relaxed)}),
+    "distinct_observed_outcomes" => outs.len(),
+    "observed_outcomes" => outs.iter().cloned().collect::<Vec<_>>(),
+    "failure_classes" => log.classes().iter().map(|(s, n)| json!({"signature": s, "cases": n})).collect::<Vec<_>>(),
+    "cap_hit" => if to { Some(format!("wall budget (score sweep until {deadline_a}s, sort sweep until {deadline_b}s; worlds are processed simplest-first)")) } else { None },
+    "exhaustive" => !to,
+  };
+  rep.finish(
+    cov,
+    vec![
+      "scores are judged only when the sort plan contains _score (with field-only plans the engine does not compute scores; the documentation does not say what the score field holds then)".into(),
+      "order is judged with the scores the response itself reports, compared exactly".into(),
+      "not judged (documentation silent): function_score over a zero or non-scoring base, default score_mode with several functions, boosts on bool/dis_max/function_score/script_score nodes, reciprocal/log modifiers at their singular points".into(),
+      "two readings admitted: a function_score none of whose functions applies to the document (base unchanged, or neutral function value 1 under the boost mode); max_boost (cap on the combined score, or cap on the function value)".into(),
+      "which documents match is C07's property: a returned hit the oracle's matcher would not return is not judged here".into(),
+      "trees where one term key feeds two scoring leaves panic in assertion builds (debug_assert_eq! in search_segment): counted, left to C16".into(),
+      "worlds have no deletions, so N, df and avgdl of a segment are unambiguous".into(),
+    ],
+  )
 }
